@@ -82,7 +82,7 @@ unsafe fn ptr_copy_elementwise<T>(src: *const T, dst: *mut T, count: usize) {
         }
     }
 }
-/// harness with the exact stubs above
+/// harness with the exact Vec::new / Vec::push / StreamEntry::clone stubs above
 macro_rules! state_harness {
     ($name:ident, $unwind:expr, $body:expr) => {
         #[kani::proof]
@@ -91,7 +91,6 @@ macro_rules! state_harness {
         #[kani::stub(std::vec::Vec::push, vec_push_nogrow)]
         #[kani::stub(<StreamEntry as std::clone::Clone>::clone, entry_clone_nofields)]
         #[kani::stub(get_cached_millis, cached_millis_stub)]
-        #[kani::stub(std::ptr::copy, ptr_copy_elementwise)]
         fn $name() {
             $body
         }
@@ -238,10 +237,8 @@ fn id_parse_ascii(kf_region: bool) {
     let s = unsafe { std::str::from_utf8_unchecked(b) }; // ASCII: valid UTF-8 by construction
     let got = StreamId::from_string(s);
     let exp = ref_id(b);
-    if !kf_region {
-        kani::cover!(got.is_some(), "some ID accepted");
-        kani::cover!(got.is_none(), "some text refused");
-    }
+    kani::cover!(kf_region || got.is_some(), "some ID accepted");
+    kani::cover!(kf_region || got.is_none(), "some text refused");
     assert!(got == exp, "StreamId::from_string agrees with the reference grammar <ms>-<seq>");
 }
 
@@ -275,10 +272,8 @@ fn xadd_id_bytes(kf_region: bool) {
     let id_str = unsafe { std::str::from_utf8_unchecked(b) };
     kani::cover!(true, "region reachable");
     let got = StreamId::from_string(id_str);
-    if !kf_region {
-        kani::cover!(got.is_some(), "some ID accepted");
-        kani::cover!(got.is_none(), "some argument refused");
-    }
+    kani::cover!(kf_region || got.is_some(), "some ID accepted");
+    kani::cover!(kf_region || got.is_none(), "some argument refused");
     if let Some(id) = got {
         // accepted => the argument is <digits>-<digits> (possibly with an empty part: separate finding)
         let d = first_dash(b);
@@ -608,25 +603,39 @@ state_harness!(c15_range_after_n3, 5, {
 });
 
 // ---------------------------------------------------------------- XDEL / XTRIM
-/// XDEL with two arbitrary IDs (present, absent, equal): exactly those entries disappear, reply
+// (no container stubs here: removals do not push, and CBMC copes with the symbolic-size memmove)
+/// XDEL with K arbitrary IDs (present, absent, equal): exactly those entries disappear, reply
 /// counts them once, XLEN agrees, last_id (all copies) is unchanged.
-fn delete_check<const N: usize>() {
+fn delete_check<const N: usize, const K: usize>() {
     let (ids, last) = any_sorted_ids::<N>();
     let s = ManuallyDrop::new(mk_stream_ids(&ids, last));
-    let del = [any_id(), any_id()];
+    let mut del = [StreamId { packed: 0 }; K];
+    let mut j = 0;
+    while j < K {
+        del[j] = any_id();
+        j += 1;
+    }
     let n = s.delete(&del);
     let mut exp = [StreamId { packed: 0 }; N];
     let mut m = 0;
     let mut k = 0;
     while k < N {
-        if ids[k] != del[0] && ids[k] != del[1] {
+        let mut hit = false;
+        let mut j = 0;
+        while j < K {
+            if ids[k] == del[j] {
+                hit = true;
+            }
+            j += 1;
+        }
+        if !hit {
             exp[m] = ids[k];
             m += 1;
         }
         k += 1;
     }
-    kani::cover!(m + 2 == N, "two deleted");
-    kani::cover!(m + 1 == N && del[0] == del[1], "same ID twice counts once");
+    kani::cover!(m + K == N || (K > N && m == 0), "every argument hit a different entry");
+    kani::cover!(K < 2 || (m + 1 == N && del[0] == del[K - 1]), "same ID twice counts once");
     kani::cover!(m == N, "nothing deleted");
     kani::cover!(m + 1 == N && del[0] == ids[N - 1], "top entry deleted");
     assert!(n == N - m, "XDEL reply == number of entries removed");
@@ -635,53 +644,126 @@ fn delete_check<const N: usize>() {
     assert!(d.memory_usage >= std::mem::size_of::<StreamData>(), "memory counter did not underflow");
     drop(d);
 }
-state_harness!(c15_delete_n2, 4, {
-    delete_check::<2>();
-});
-state_harness!(c15_delete_n3, 4, {
-    delete_check::<3>();
-});
+#[kani::proof]
+#[kani::unwind(4)]
+fn c15_delete_one_n3() {
+    delete_check::<3, 1>();
+}
+#[kani::proof]
+#[kani::unwind(4)]
+#[kani::stub(std::ptr::copy, ptr_copy_elementwise)]
+fn c15_delete_two_n2() {
+    delete_check::<2, 2>();
+}
 
-/// XTRIM MAXLEN n on 3 entries: the oldest entries go, the newest min(n, len) stay; last_id
-/// unchanged.  n = 0, 1, 2 concretely (a symbolic n makes the drained length a symbolic copy
-/// size), every n >= 3 symbolically.
-fn trim_count_case(max: usize) {
+/// XTRIM MAXLEN n on 3 entries, every n: the oldest entries go, the newest min(n, 3) stay;
+/// last_id unchanged.
+#[kani::proof]
+#[kani::unwind(4)]
+fn c15_trim_count_n3() {
     let (ids, last) = any_sorted_ids::<3>();
     let s = ManuallyDrop::new(mk_stream_ids(&ids, last));
+    let max: usize = kani::any();
     let n = s.trim_by_count(max);
     let keep = if max < 3 { max } else { 3 };
+    kani::cover!(keep == 0, "trimmed to empty");
+    kani::cover!(keep == 2, "one trimmed");
+    kani::cover!(keep == 3, "nothing trimmed");
     assert!(n == 3 - keep, "XTRIM reply == number of entries removed");
     check_state(&s, &ids[3 - keep..], last);
 }
-state_harness!(c15_trim_count_n3, 4, {
-    trim_count_case(0);
-    trim_count_case(1);
-    trim_count_case(2);
-    let max: usize = kani::any();
-    kani::assume(max >= 3);
-    trim_count_case(max);
-    kani::cover!(true, "reached the end");
-});
 
 /// trim by minimum ID: exactly the entries below min_id go; last_id unchanged.
-fn trim_minid_check<const N: usize>() {
-    let (ids, last) = any_sorted_ids::<N>();
+#[kani::proof]
+#[kani::unwind(4)]
+fn c15_trim_minid_n3() {
+    let (ids, last) = any_sorted_ids::<3>();
     let s = ManuallyDrop::new(mk_stream_ids(&ids, last));
     let min = any_id();
     let n = s.trim_by_min_id(&min);
     let mut gone = 0;
-    while gone < N && ids[gone] < min {
+    while gone < 3 && ids[gone] < min {
         gone += 1;
     }
-    kani::cover!(gone == N, "trimmed to empty");
+    kani::cover!(gone == 3, "trimmed to empty");
     kani::cover!(gone == 1 && min == ids[1], "min_id equal to a present ID keeps it");
     kani::cover!(gone == 0, "nothing trimmed");
     assert!(n == gone, "reply == number of entries removed");
     check_state(&s, &ids[gone..], last);
 }
-state_harness!(c15_trim_minid_n2, 4, {
-    trim_minid_check::<2>();
+
+// ---------------------------------------------------------------- C16: XREADGROUP cursor
+/// XREADGROUP ... > on a stream with N entries and a group whose cursor is arbitrary: the reply
+/// is exactly the entries after the cursor, in order (first COUNT), and the cursor advances to
+/// the last delivered ID (or stays when nothing is delivered) - also with NOACK.
+/// Region of the known finding: NOACK and at least one entry delivered.
+fn readgroup_check<const N: usize>(noack: bool, kf_region: Option<bool>) {
+    let (ids, last) = any_sorted_ids::<N>();
+    let s = ManuallyDrop::new(mk_stream_ids(&ids, last));
+    let made = s.consumer_groups.create_group(String::from("g"), StreamId::new(0, 0));
+    assert!(made.is_ok(), "group created");
+    let g = ManuallyDrop::new(s.consumer_groups.get_group("g"));
+    let g = match &*g {
+        Some(g) => g,
+        None => {
+            assert!(false, "group can be looked up");
+            return;
+        }
+    };
+    let cursor = any_id();
+    g.set_id(cursor);
+    let count: Option<usize> = kani::any();
+    let mut exp = [StreamId { packed: 0 }; N];
+    let mut m = 0;
+    let mut k = 0;
+    while k < N {
+        if ids[k] > cursor && (match count { Some(c) => m < c, None => true }) {
+            exp[m] = ids[k];
+            m += 1;
+        }
+        k += 1;
+    }
+    if let Some(kf) = kf_region {
+        kani::assume((m > 0) == kf);
+    }
+    let r = ManuallyDrop::new(s.read_group("g", "a", StreamId::max(), count, noack));
+    let kfh = kf_region == Some(true);
+    kani::cover!(kfh || m == 0, "nothing new");
+    kani::cover!(kf_region == Some(false) || m == N, "everything delivered");
+    match &*r {
+        Ok(v) => {
+            assert!(v.len() == m, "XREADGROUP > reply: number of entries");
+            let mut i = 0;
+            while i < m {
+                assert!(v[i].id == exp[i], "XREADGROUP > reply: exactly the entries after the cursor, in order");
+                i += 1;
+            }
+        }
+        Err(_) => assert!(false, "XREADGROUP on an existing group fails"),
+    }
+    let want = if m > 0 { exp[m - 1] } else { cursor };
+    assert!(g.get_last_id() == want, "cursor == last delivered ID (unchanged when nothing was delivered)");
+    let total = *g.total_pending.lock().unwrap();
+    assert!(total == if noack { 0 } else { m }, "total_pending == number of entries delivered without NOACK");
+}
+macro_rules! rg_harness {
+    ($name:ident, $body:expr) => {
+        #[kani::proof]
+        #[kani::unwind(5)]
+        #[kani::stub(std::vec::Vec::new, vec_new_cap4)]
+        #[kani::stub(std::vec::Vec::push, vec_push_nogrow)]
+        #[kani::stub(<StreamEntry as std::clone::Clone>::clone, entry_clone_nofields)]
+        #[kani::stub(std::time::SystemTime::now, systime_now_stub)]
+        #[kani::stub(alloc::fmt::format, fmt_stub)]
+        fn $name() {
+            $body
+        }
+    };
+}
+rg_harness!(c16_readgroup_noack_rest, {
+    readgroup_check::<2>(true, Some(false));
 });
-state_harness!(c15_trim_minid_n3, 4, {
-    trim_minid_check::<3>();
+rg_harness!(c16_readgroup_noack_kf, {
+    readgroup_check::<2>(true, Some(true));
 });
+// (the acknowledging path - read_group + add_pending - ran CBMC out of memory even for one entry)
